@@ -105,7 +105,7 @@ pub fn nontrivial(s: &CaseStats) -> bool {
 pub fn run(cfg: &Cfg) -> i32 {
     let start = Instant::now();
     let checks = Checks { canon: true, structure: false, rc: false, node_count: true };
-    if let Some(path) = &cfg.replay {
+    if let Some(path) = cfg.replay.as_ref().filter(|p| replay_case_is(p, |c| is_bool_kind(c) && c["ops"].is_array())) {
         return replay(cfg, path, checks, start);
     }
     let perms = permutations(3);
